@@ -39,6 +39,8 @@ for mn, mx in ((2, 2), (2, 3), (1, 2)):
     ):
         CASES.append({"min": mn, "max": mx, "plan": plan})
 # a job of the same description is added WHILE the monitor hands off an over-sized stale group (remainder path with a concurrent add)
+# an over-sized group whose remainder is smaller than the minimum array size: the remainder must go out as single jobs, not as an illegal small array
+CASES.append({"min": 3, "max": 4, "plan": [[0, 0, 0, 0, 0, 0]]})
 LATE_CASES = [{"min": 2, "max": 2, "plan": [[0, 0, 0]], "late": [0]}, {"min": 1, "max": 2, "plan": [[0, 0, 0]], "late": [0]},
               {"min": 2, "max": 2, "plan": [[0, 0, 0]], "late": [1]}, {"min": 2, "max": 3, "plan": [[0, 0]], "late": [0]}]
 
